@@ -3,7 +3,7 @@ from .. import lib, presentation as pr
 
 PID = "C05"
 TIERS = {
-    "quick":    dict(num=140, depth=4, bases=8, jitter=0),
+    "quick":    dict(num=110, depth=4, bases=8, jitter=0),
     "thorough": dict(num=900, depth=6, bases=13, jitter=2),
 }
 
@@ -54,6 +54,15 @@ def build_cases(t):
                         steps.append(["ToggleRecords", rec])
         cases.append({"id": f"p{k}-{name}" + (f"-{perturb[0]}" if perturb else ""), "base": name, "perturb": perturb,
                       "fmt0": b["fmt0"], "steps": steps})
+    # one fixed behaviour per base (a behaviour of Presentation like any other): a tour through every relabelling
+    # action in both text formats and in memory, so that e.g. "a residue numbered 0 in an mmCIF file" does not depend
+    # on which behaviours the simulation happened to deal to which base
+    tour = [["ShiftNumbers", 3], ["SwitchFormat", 1], ["ShiftNumbers", 1], ["InsertCodes", 1], ["SwitchFormat", 2],
+            ["RenameChains", 1], ["ToggleRecords", 1], ["PermuteAtoms", 1], ["ShiftNumbers", 2], ["SwitchFormat", 0],
+            ["ShiftNumbers", 3], ["InsertCodes", 2]]
+    for name, perturb in bases:
+        cases.append({"id": f"tour-{name}" + (f"-{perturb[0]}" if perturb else ""), "base": name, "perturb": perturb,
+                      "fmt0": "cif", "steps": [list(x) for x in tour]})
     return cases, bases
 
 
